@@ -93,7 +93,7 @@ theorem eqTest_noPanic (hs : s.WF) {a b : VCell} (ha : VCell.Valid s a) (hb : VC
     Outcome.NoPanic (eqTest s a b) := eqv_noPanic hs hb ha
 
 theorem equalTest_noPanic (fuel : Nat) (hs : s.WF) {a b : VCell} (ha : VCell.Valid s a) (hb : VCell.Valid s b) :
-    Outcome.NoPanic (equalTest fuel s a b) := (equal_all_noPanic hs fuel).1 _ _ hb ha
+    Outcome.NoPanic (equalTest fuel s a b) := equal_noPanic hs fuel hb ha
 
 /-! ### `length`, `memq … assoc`: read-only recursions -/
 
